@@ -8,7 +8,8 @@ from vlib.harness import Sub
 PROPERTY = "C17"
 RULE = (
     "Point clouds of 2-40 (quick) / 2-300 (thorough) points in general position: distinct lattice points (multiples of "
-    "1/4 within +-50) plus a per-coordinate irrational jitter, given as float64; soma given or not; balancing factor in "
+    "1/4 within +-50) plus a per-coordinate irrational jitter, given as float64 or float32, or integer (voxel) coordinates "
+    "on a wide lattice given as int32 / int64 (a loud refusal of an integer array is accepted, a different tree is not); soma given or not; balancing factor in "
     "[0, 1] (and values outside to exercise clipping); branching limit in {-1, 1, 2, 3}; exclude_soma and sort on / off. "
     "Oracle: the result is one well-formed tree (sorted when sort=True) whose multiset of float32 positions is the "
     "input (+ soma), rooted at the soma / first point and typed soma there; PointsToMST(furcations=-1) has the total "
@@ -39,7 +40,9 @@ def cloud_strategy(draw, tier):
             "k": draw(st.sampled_from([-1, -1, 1, 2, 2, 3])),
             "exclude_soma": draw(st.booleans()), "sort": draw(st.booleans()),
             "which": draw(st.sampled_from(["cuntz", "cuntz", "mst"])),
-            "clustered": draw(st.booleans())}
+            "clustered": draw(st.booleans()),
+            # the cloud as the caller may hold it: float64 / float32 arrays, or integer (voxel) coordinates
+            "dtype": draw(st.sampled_from(["float64", "float64", "float64", "float32", "int32", "int64"]))}
 
 
 def _points(case):
@@ -54,12 +57,23 @@ def _points(case):
             continue
         seen.add(p)
         pts.append(p)
+    dtype = case.get("dtype", "float64")
+    if dtype.startswith("int"):
+        # integer coordinates: a wide lattice so that exact ties between candidate edges are rare (detected and skipped)
+        wide = rs.randint(-3000, 3001, (n, 3)) if not case["clustered"] else rs.randint(-300, 301, (n, 3))
+        out, seen = [], set()
+        for p in wide.tolist():
+            while tuple(p) in seen:
+                p[0] += 1
+            seen.add(tuple(p))
+            out.append(p)
+        return np.array(out, dtype=dtype)
     P = np.array(pts, dtype=np.float64) / 4.0
     jitter = (rs.rand(n, 3) - 0.5) * 0.05 * np.sqrt(2.0)
-    return P + jitter
+    return (P + jitter).astype(dtype)
 
 
-def ref_greedy(P, bf, k, excl):
+def ref_greedy(P, bf, k, excl, tie=1e-9):
     n = len(P)
     D = np.linalg.norm(P.reshape((-1, 1, 3)) - P.reshape((1, -1, 3)), axis=2)
     pid = [-1] * n
@@ -84,7 +98,7 @@ def ref_greedy(P, bf, k, excl):
         if best is None:
             return pid, amb, "no unsaturated connected point left"
         c, i, j = best
-        if second is not None and abs(second[0] - c) < 1e-9 * (1 + c):
+        if second is not None and abs(second[0] - c) < tie * (1 + c):
             amb = True
         pid[j] = i
         acc[j] = acc[i] + D[i, j]
@@ -120,8 +134,15 @@ def run_cloud(case, ctx):
 
     P = _points(case)
     soma = case["soma"]
-    full = np.concatenate([[np.array(soma, dtype=np.float64)], P]) if soma is not None else P
+    dtype = case.get("dtype", "float64")
+    is_int = dtype.startswith("int")
+    if soma is not None:
+        soma = np.array([round(v * 50) for v in soma], dtype=dtype) if is_int else np.array(soma, dtype=np.float64)
+    # the library measures distances in the array's own precision: ties closer than that are not decidable
+    tie = 1e-5 if dtype == "float32" else 1e-9
+    full = (np.concatenate([[soma], P]) if soma is not None else P).astype(np.float64)
     n = len(full)
+    ctx.cls("dtype:" + dtype)
     k, excl, sort, which = case["k"], case["exclude_soma"], case["sort"], case["which"]
     bf = float(np.clip(case["bf"], 0, 1)) if which == "cuntz" else 0.0
     ctx.cls("which:" + which, f"limit:{k}", "soma-given" if soma is not None else "first-point-is-root",
@@ -132,8 +153,17 @@ def run_cloud(case, ctx):
     else:
         tr = PointsToMST(k, exclude_soma=excl, sort=sort)
     snapshot = P.copy()
-    args = (P,) if soma is None else (P, np.array(soma, dtype=np.float64))
-    out = ctx.lib(f"{which}/build", lambda: tr(*args))
+    args = (P,) if soma is None else (P, soma)
+    if is_int:
+        # the signature annotates a floating array: a loud refusal of integer coordinates is not judged, a silently
+        # different tree is
+        try:
+            out = tr(*args)
+        except Exception:  # noqa
+            ctx.ambiguous("integer-cloud-refused")
+            return
+    else:
+        out = ctx.lib(f"{which}/build", lambda: tr(*args))
     ctx.check(np.array_equal(P, snapshot), f"{which}/input-unchanged", "the point array was modified")
 
     ids, pids = [int(v) for v in out.id()], [int(v) for v in out.pid()]
@@ -179,12 +209,12 @@ def run_cloud(case, ctx):
         limit_bites = False
     if bf == 0 and k == -1:
         ctx.cls("plain-mst")
-        ctx.check(abs(length - mst_w) <= 1e-9 * (1 + mst_w), f"{which}/total-length-is-minimal",
+        ctx.check(abs(length - mst_w) <= tie * (1 + mst_w), f"{which}/total-length-is-minimal",
                   lambda: f"length {length!r}, minimum spanning tree weight {mst_w!r} ({n} points)")
     else:
         ctx.check(length >= mst_w * (1 - 1e-9), f"{which}/not-shorter-than-the-mst", f"{length} < {mst_w}")
 
-    want_par, amb, err = ref_greedy(full, bf, k, excl)
+    want_par, amb, err = ref_greedy(full, bf, k, excl, tie)
     if err:
         ctx.ambiguous("reference-greedy-stuck")
         return
@@ -194,7 +224,7 @@ def run_cloud(case, ctx):
         return
     ctx.check(par == want_par, f"{which}/each-point-attached-to-the-cost-minimising-connected-point",
               lambda: f"bf={bf} k={k} exclude_soma={excl} n={n}: parents {par} != greedy {want_par}")
-    base_par, amb0, _ = ref_greedy(full, 0.0, k, excl)
+    base_par, amb0, _ = ref_greedy(full, 0.0, k, excl, tie)
     bf_visible = bf > 0 and not amb0 and base_par != want_par
     if which == "cuntz" and bf > 0:
         ctx.cls("bf-visible" if bf_visible else "bf-invisible")
@@ -205,5 +235,5 @@ SUBCHECKS = [
     Sub("cloud", cloud_strategy, run_cloud, quick=6000, thorough=40000, shards_quick=8,
         required={"which:mst": 200, "which:cuntz": 400, "limit:-1": 200, "limit:1": 100, "limit:2": 200, "limit:3": 100,
                   "soma-given": 300, "first-point-is-root": 200, "bf-visible": 150, "limit-bites": 100, "plain-mst": 40,
-                  "bf-clipped": 50, "sort": 300, "nosort": 300}),
+                  "bf-clipped": 50, "sort": 300, "nosort": 300, "dtype:float32": 200, "dtype:int32": 200, "dtype:int64": 200}),
 ]
